@@ -48,6 +48,34 @@ CLAIMED = {
         note="Exact-multiple-with-exactly-n-free is accepted either way; full 72-slot exhaustion is unreachable on a consistent image (68 granules) and is not decided.",
         ref="DESIGN.md section 5 C15",
     ),
+    "C09": dict(
+        engine="store-sim",
+        technique="deterministic simulation: seeded histories of real CLI invocations and VirtualFile sessions on an in-memory host filesystem, each its own simulated process (restart with only durable bytes between any two), interleaved with simulated-peer writes and kills; after every op every path is read by the reference readers and by the tool and compared with a model; kind recognition exercised with cassettes below/at/above disk size and disks driven to capacity",
+        text="Seeded search over histories of 2..10 ops on 1..3 host paths (assembler.py --to_cas/--to_dsk [--append], file_util conversions, VirtualFile open/add/save, peer_write, peer_kill, file_util --list); invariant after every op for every path: reference reader == model, tool listing == model, old files keep position and content, new file last, refused op changes nothing, kind K re-opens as K.",
+        note="Trusts RefTape/RefDisk and SimFS/SimProc. Crash mid-save / failed host writes are not injected: no property quantifies over them.",
+        ref="DESIGN.md section 5 C09",
+    ),
+    "C10": dict(
+        engine="store-sim",
+        technique="deterministic simulation: the complete 108-cell matrix {assembler.py, file_util.py} x {--to_bin,--to_cas,--to_dsk} x {append, no append} x 9 pre-existing target states, plus seeded invocation sequences with injected read errors on the existing target, all on an in-memory host filesystem; oracle = I/O event trace of each simulated process (no TRUNCATE/WRITE/CREATE or write-mode OPEN unless append applies) + reference readers on what was written",
+        text="The matrix is enumerated completely in every run; sequences of 2..6 invocations over 1..3 paths are sampled. The trace invariant sees a target rewritten with identical bytes, which a byte comparison cannot.",
+        note="Pre-existing contents are constructed with a known kind; an empty file may be treated as an empty tape or binary; 'told why' = some text printed.",
+        ref="DESIGN.md section 5 C10",
+    ),
+    "C11": dict(
+        engine="store-sim",
+        technique="deterministic simulation: real assembler.py processes on an in-memory host filesystem with every output-switch combination, fresh or peer/tool-prepared compatible targets; the written host files are consumed by the other party (RefTape/RefDisk readers, then file_util --list) and compared with a separate in-harness assembly of the same source",
+        text="Seeded search over (program shape, origin, NAM / --name, name length and case, size up to 64 KiB, switch set, append onto pre-existing image); checks binary == image, newest container entry is ML/binary with data == image, load == origin, exec in {origin, END operand}, name == NAM else --name; without any name no cas/dsk file is opened for writing.",
+        note="The assembler is its own reference for image/origin/name; the glue through process and file seams is what is judged.",
+        ref="DESIGN.md section 5 C11",
+    ),
+    "C16": dict(
+        engine="store-sim",
+        technique="deterministic simulation: chains of real file_util.py processes over host files on an in-memory filesystem, sources written by the tool or by simulated peers, every --files selection shape, optional --append targets; after every hop the reference readers and the tool's own listing of every path are compared with a model of what the conversion must carry across",
+        text="Seeded search over source images (cassette/disk, tool/peer written, 1..5 files, names in either case) x target kind x --files subsets (upper/lower/mixed case, absent names) x chains cas->dsk->cas / dsk->cas->dsk x --to_bin on 1-file and n-file images (must refuse n>1 with non-zero exit and no write).",
+        note="Addresses compared for ML files only (other kinds lose them on a disk by format); extensions are not compared.",
+        ref="DESIGN.md section 5 C16",
+    ),
 }
 
 NOT_APPLICABLE = {
